@@ -1,0 +1,45 @@
+//go:build verif
+
+// Contracts for package parsepath, checked by /verif (govc). Comment-only; compiled only under -tags verif.
+package parsepath
+
+// The scanner never indexes outside its buffer and every call either consumes input or reports the end (so that
+// tokenising any byte string terminates): 0 <= pos <= len(buf) is kept by every method, and pos strictly grows
+// except at end of input.
+//@ func (*scanner).number
+// (re is one of the package-level compiled patterns, never nil)
+//@   requires s != nil && 0 <= s.pos && s.pos <= len(s.buf)
+//@   assigns s.pos
+//@   sweep[C19] nil index slice div typeassert panic makeslice nilmap
+//@   ensures[C19] old(s.pos) <= s.pos && s.pos <= len(s.buf) && (old(s.pos) < len(s.buf) ==> s.pos > old(s.pos)) && result.Pos == start
+
+//@ func (*scanner).escape
+//@   requires s != nil && 0 <= s.pos && s.pos < len(s.buf)
+//@   assigns s.pos
+//@   sweep[C19]
+//@   ensures[C19] old(s.pos) < s.pos && s.pos <= len(s.buf) && old(s.pos) <= result.Pos && result.Pos <= len(s.buf)
+
+//@ func (*scanner).single
+//@   requires s != nil && 0 <= s.pos && s.pos < len(s.buf)
+//@   assigns s.pos
+//@   sweep[C19]
+//@   ensures[C19] s.pos == old(s.pos) + 1 && result != nil
+
+//@ func (*scanner).bad
+//@   assigns nothing
+//@   sweep[C19]
+//@   ensures[C19] result != nil
+
+//@ func (*scanner).string
+//@   requires s != nil && 0 <= s.pos && s.pos < len(s.buf)
+//@   assigns s.pos
+//@   sweep[C19]
+//@   ensures[C19] old(s.pos) < s.pos && s.pos <= len(s.buf) && result != nil
+//@   loop 1 invariant old(s.pos) < s.pos && s.pos <= len(s.buf) && lit != nil
+//@   loop 1 decreases[C19] len(s.buf) - s.pos
+
+//@ func (*scanner).scan
+//@   requires s != nil && 0 <= s.pos && s.pos <= len(s.buf)
+//@   assigns s.pos
+//@   sweep[C19]
+//@   ensures[C19] result != nil && old(s.pos) <= s.pos && s.pos <= len(s.buf) && (old(s.pos) < len(s.buf) ==> s.pos > old(s.pos)) && (old(s.pos) >= len(s.buf) ==> result.Kind == 9)
